@@ -17,6 +17,8 @@ def main():
     run.assumptions += ["worker functions are slice-wise (row-wise) along the mapped dim; imap preserves submission order (CPython multiprocessing)"]
     from c12_fns import guarded_stream, hard_deadline, single_threaded_torch
     single_threaded_torch()
+    from c12_fns import route_metadata_race
+    route_metadata_race(run)
     quick = run.tier == "quick"
     import c12_pins
     c12_pins.for_check(run, "C12")
@@ -43,11 +45,15 @@ def main():
             guarded_stream(run, "map", c12_map.run_map, run, drv)
         with hard_deadline(300 if quick else 1500, "map (extended domain)"):
             guarded_stream(run, "map-ext", c12_map.run_map_ext, run)
+            # the pool `map` makes itself: worker ids handed out once each, seeds = base + id from the generator argument, worker_threads
+            guarded_stream(run, "seeding", c12_map.run_seeding, run)
         if run.tier != "quick":
             c12_map.probe_max_tasks_per_child(run)
         import c12_threads
         with hard_deadline(420 if quick else 2400, "threads"):
             guarded_stream(run, "threads", c12_threads.run_threads, run, drv)
+            # the metadata writer task of a non-tensor entry under forced schedules against the single-threaded save (model + theorems: Props/C10)
+            guarded_stream(run, "metadata-task", c12_threads.run_metadata_race, run, None, tag="c12m")
     run.finish("proof")
 
 
